@@ -142,3 +142,149 @@ def c01_accepted(v):
     v.assumptions_used.add('A-FRESH')
     v.oblige(s3, v.spec_bool("t0.inputs[k0].output_reference.hash != txs[m0].hash()", s3),
              "C01:lemma:no-spend-of-output-created-in-same-block", "under A-FRESH, because the reference is in the parent's set")
+
+
+# ---------------------------------------------------------------------------------------------------- C04
+
+# Representation invariant of a chain state built by parent-before-child arrivals, in pointwise form: every clause is
+# stated for one stored id k (and one second variable where needed).  Ghost state: arr (arrival index of every stored
+# block) and child (for a stored block that is not a tip: one stored child).  Domains: 'block' = k in cs.block_by_hash,
+# 'tip' = k in cs.heads; second variable 'c' ranges over stored ids, 'm' over all integers.
+FORK_MACROS = {
+    'HT': "lambda k: cs.block_by_hash[k].header.summary.height",
+    'PREV': "lambda k: cs.block_by_hash[k].header.summary.previous_block_hash",
+}
+INV_FORK = {
+    # ids are the blocks' own ids; every stored block has its index
+    "ids": ('block', None, "cs.block_by_hash[k].hash() == k and k != ZERO32"),
+    "indexed": ('block', None, "k in cs.block_by_height_by_hash"),
+    # the tree: a stored block is a root at height 0, or its parent is stored one level lower
+    "tree": ('block', None, "HT(k) >= 0 and ((PREV(k) == ZERO32 and HT(k) == 0) or (PREV(k) != ZERO32 and PREV(k) in cs.block_by_hash and HT(k) == HT(PREV(k)) + 1))"),
+    # head: stored; nothing stored is higher; equally high blocks arrived no earlier (first seen wins)
+    "head-stored": ('block', None, "cs.current_chain_hash is not None and cs.current_chain_hash in cs.block_by_hash"),
+    "head-best": ('block', None, "HT(k) < HT(cs.current_chain_hash) or (HT(k) == HT(cs.current_chain_hash)"
+                                 " and (k == cs.current_chain_hash or arr[cs.current_chain_hash] < arr[k]))"),
+    # tips: exactly the stored blocks without a stored child
+    "tips-stored": ('tip', None, "k in cs.block_by_hash and same(cs.heads[k], cs.block_by_hash[k])"),
+    "tips-childless": ('tip', 'c', "PREV(c) != k"),
+    "non-tips-have-child": ('block', None, "k in cs.heads or (child[k] in cs.block_by_hash and PREV(child[k]) == k)"),
+    # by-height index at k: exactly heights 0..height(k); k itself on top; below that, the parent's index
+    "index-domain": ('block', 'm', "(m in cs.block_by_height_by_hash[k]) == (0 <= m <= HT(k))"),
+    "index-top": ('block', None, "same(cs.block_by_height_by_hash[k][HT(k)], cs.block_by_hash[k])"),
+    "index-ancestors": ('block', 'm', "implies(0 <= m < HT(k), PREV(k) in cs.block_by_height_by_hash and"
+                                      " same(cs.block_by_height_by_hash[k][m], cs.block_by_height_by_hash[PREV(k)][m]))"),
+    # arrival indices of different stored blocks differ
+    "arrivals-distinct": ('block', 'c', "k == c or arr[k] != arr[c]"),
+}
+
+
+def _fork_env(v, st, cs, arr, child):
+    st.frame.vars.update(cs=cs, arr=arr, child=child)
+    for name, text in FORK_MACROS.items():
+        st.frame.vars[name] = v.spec_value(text, st)
+
+
+def _fork_clause(v, st, name, k, second=None):
+    """the clause `name` of INV_FORK at key k (and second variable), including its domain guard, as a z3 formula"""
+    dom, sec, text = INV_FORK[name]
+    env = {'k': k}
+    guard = "k in cs.block_by_hash" if dom == 'block' else "k in cs.heads"
+    if sec == 'c':
+        env['c'] = second
+        guard += " and c in cs.block_by_hash"
+    elif sec == 'm':
+        env['m'] = second
+    return z3.Implies(v.spec_bool(guard, st, env), v.spec_bool(text, st, env))
+
+
+@LM.lemma("C04.fork-choice", props=["C04"])
+def c04_fork_choice(v):
+    """INV_FORK is established by the empty state and preserved by add_block_no_validation for every block that picks an
+    already stored block as parent (or is the first block).  The induction over the arrival sequence is the usual
+    soundness argument for a representation invariant; base and step are what is checked here.  The step is proved
+    pointwise: for an arbitrary key k0 (c0 / m0) of the NEW state, from the old invariant instantiated at the keys that
+    matter (k0, c0, the parent, the old head, the ghost child witnesses) - a quantifier-free problem."""
+    from pyvc import CLS, BYTES, ARR
+    st = _lemma_state(v, 'skepticoin.coinstate')
+    cs = v.fresh('cs', CLS('CoinState'))
+    block = v.fresh('block', CLS('Block'))
+    arr = v.fresh('arr', ARR(BYTES, INT))
+    child = v.fresh('child', ARR(BYTES, BYTES))
+    k0 = v.fresh('k0', BYTES)
+    c0 = v.fresh('c0', BYTES)
+    m0 = v.fresh('m0', INT)
+    n = v.fresh('n', INT)
+    st.frame.vars.update(block=block, k0=k0, c0=c0, m0=m0, n=n)
+    _fork_env(v, st, cs, arr, child)
+    st.frame.vars['h'] = v.spec_value("block.hash()", st)
+    st.frame.vars['prev'] = v.spec_value("block.header.summary.previous_block_hash", st)
+    h, prev = st.frame.vars['h'], st.frame.vars['prev']
+    cur = v.spec_value("cs.current_chain_hash", st)
+    from pyvc.types import opt_sort, BYTES_SORT
+    cur_b = V(opt_sort(BYTES_SORT).val(cur.t), BYTES)
+    # the arriving block: new, and its parent arrived earlier (or it is the first block: empty state)
+    st.assume(v.spec_bool("(cs.current_chain_hash is None) == (not any(True for k in cs.block_by_hash))", st))
+    st.assume(v.spec_bool("implies(cs.current_chain_hash is None, not any(True for k in cs.heads))", st))
+    for text in [
+        "h not in cs.block_by_hash", "h not in cs.heads", "h != ZERO32",
+        "(prev == ZERO32 and cs.current_chain_hash is None and block.header.summary.height == 0)"
+        " or (prev != ZERO32 and prev in cs.block_by_hash and block.header.summary.height == HT(prev) + 1)",
+        "G.applies(cs, block)",
+    ]:
+        st.assume(v.spec_bool(text, st))
+    assert v.use_contract(st, "skepticoin.coinstate.CoinState.add_block_no_validation", self=cs, block=block)
+    cs2 = v.spec_value("cs.add_block_no_validation(block)", st)
+    # no stored block names the new one as parent (children arrive after parents), at the keys used below
+    keys = [k0, c0, prev, cur_b, V(z3.Select(child.t, k0.t), BYTES), V(z3.Select(child.t, prev.t), BYTES)]
+    for kk in keys:
+        st.assume(v.spec_bool("implies(cs.current_chain_hash is None, not (kk in cs.block_by_hash) and not (kk in cs.heads))", st, {'kk': kk}))
+        st.assume(v.spec_bool("implies(kk in cs.block_by_hash, PREV(kk) != h)", st, {'kk': kk}))
+        st.assume(v.spec_bool("implies(kk in cs.block_by_hash, arr[kk] < n)", st, {'kk': kk}))
+    # the old invariant, instantiated at those keys
+    for name, (dom, sec, _t) in INV_FORK.items():
+        for kk in keys:
+            if sec == 'c':
+                for cc in keys:
+                    st.assume(_fork_clause(v, st, name, kk, cc))
+            elif sec == 'm':
+                for mm in (m0, V(m0.t - 1, INT)):
+                    st.assume(_fork_clause(v, st, name, kk, mm))
+            else:
+                st.assume(_fork_clause(v, st, name, kk))
+    # ghost updates: the new block arrives after everything stored; it becomes the child witness of its parent
+    arr2 = V(z3.Store(arr.t, h.t, n.t), arr.ty)
+    child2 = V(z3.Store(child.t, prev.t, h.t), child.ty)
+    post = st.fork()
+    _fork_env(v, post, cs2, arr2, child2)
+    for name, (dom, sec, text) in INV_FORK.items():
+        second = {'c': c0, 'm': m0, None: None}[sec]
+        v.oblige(post, _fork_clause(v, post, name, k0, second), "C04:lemma:preserved:" + name,
+                 "%s   [for arbitrary k%s of the new state]" % (text, (', ' + sec) if sec else ''))
+    v.oblige(post, v.spec_bool("cs.current_chain_hash is not None and cs.current_chain_hash in cs.block_by_hash and h in cs.block_by_hash", post),
+             "C04:lemma:preserved:nonempty", "after an arrival the state has a stored head")
+    # base case: the empty state satisfies every clause (no stored blocks, no tips, no head)
+    import skepticoin.coinstate as csmod
+    base = _lemma_state(v, 'skepticoin.coinstate')
+    outs = list(v.call_function(csmod.CoinState.empty.__func__, [csmod.CoinState], {}, base, inline=True))
+    assert len(outs) == 1
+    b_st, empty = outs[0]
+    b_st.frame.vars.update(k0=k0, c0=c0, m0=m0)
+    _fork_env(v, b_st, empty, arr, child)
+    for name, (dom, sec, text) in INV_FORK.items():
+        second = {'c': c0, 'm': m0, None: None}[sec]
+        v.oblige(b_st, _fork_clause(v, b_st, name, k0, second), "C04:lemma:established:" + name, text)
+    v.oblige(b_st, v.spec_bool("cs.current_chain_hash is None and not (k0 in cs.block_by_hash) and not (k0 in cs.heads)", b_st),
+             "C04:lemma:established:empty", "the empty state stores nothing")
+    # the statement, read off the invariant (clause head-best + arrivals-distinct): no stored block is higher than the
+    # head, and a different block of the same height arrived strictly later
+    v.oblige(post, v.spec_bool(
+        "implies(k0 in cs.block_by_hash, HT(k0) <= HT(cs.current_chain_hash) and implies(HT(k0) == HT(cs.current_chain_hash)"
+        " and k0 != cs.current_chain_hash, arr[cs.current_chain_hash] < arr[k0]))", post),
+        "C04:lemma:head-is-first-seen-of-greatest-height", "statement clause 1, for arbitrary stored k0")
+    # tips are exactly the stored blocks without stored children: both directions, pointwise
+    v.oblige(post, v.spec_bool(
+        "implies(k0 in cs.heads and c0 in cs.block_by_hash, PREV(c0) != k0)", post),
+        "C04:lemma:tips-have-no-stored-child", "statement clause 2 (=>)")
+    v.oblige(post, v.spec_bool(
+        "implies(k0 in cs.block_by_hash and not (k0 in cs.heads), child[k0] in cs.block_by_hash and PREV(child[k0]) == k0)", post),
+        "C04:lemma:non-tips-have-a-stored-child", "statement clause 2 (<=), with the ghost witness")
